@@ -1266,3 +1266,34 @@ def r_dispatch(db, rep):
                     rep.ob()
                     rep.viol("%s#seek" % f.qn, f.nloc(n), "%s repositions the stream: the image would not be self-delimiting" % f.qn, f.qn)
     rep.ob()
+
+
+@rule("R-NARROW", 150, "no save narrows persistent state: a scalar written with saveValue<T> from a data member has at least the member's width "
+                       "(a value that does not fit T comes back different, even though writer and reader agree on T)")
+def r_narrow(db, rep):
+    for f in sorted(db.funcs.values(), key=lambda x: (x.file, x.line)):
+        if not f.body or f.name != "save":
+            continue
+        for c in f.calls():
+            if callee_name(c) != "saveValue" or len(c.get("args", [])) != 2:
+                continue
+            a = c["args"][1]
+            pt = f.type(a)
+            x = a
+            while x["k"] in TRANSPARENT:
+                cs = children(x)
+                if len(cs) != 1:
+                    break
+                x = cs[0]
+            if x["k"] != "MemberExpr" or x.get("mk") != "field":
+                continue
+            st = f.type(x)
+            if not st or not pt or st["kind"] not in ("int", "uint") or pt["kind"] not in ("int", "uint", "bool"):
+                continue
+            rep.visit(f)
+            rep.inst(f.nloc(c), "%s writes %s (%s) as %s" % (f.qn, x["n"], st["s"], pt["s"]))
+            rep.ob()
+            if (st.get("bits") or 0) > (pt.get("bits") or 0):
+                rep.viol("%s#narrow-%s" % (f.qn, x["n"]), f.nloc(c),
+                         "%s writes member %s of type %s as %s: values above %d-bit range are truncated in the image and the reloaded object "
+                         "differs from the saved one" % (f.qn, x["n"], st["s"], pt["s"], pt.get("bits") or 0), f.qn)
